@@ -97,11 +97,12 @@ CLAIMS = {
              "a worker step unlinks at most the head of the removal list = the oldest linked file (c08_unlinks_oldest_first); whenever the "
              "worker unlinks chunk c, the journal position m right behind the purge that made it obsolete is at or below the acknowledged "
              "position, every remaining file is written and durable up to m (or its end), every later prefix of the history has a purge "
-             "point at or beyond c's closing last, and no index entry lives in c (c08_unlink_only_after_purge_durable); after flush + "
-             "workerIdle with no failed sync outstanding nothing is left to unlink and the directory holds exactly the live chunks "
-             "(c08_flushed_idle_gone). Worker level (Props/C08): unlink only after a good sync, list order, popObsolete drops a prefix. "
-             "Not a theorem (false in the model, recorded findings): a chunk closed after the purge that covers it stays until the next "
-             "purge call; a removal postponed by a failed sync waits for the next removal request. Trace oracle per unlink event on the "
+             "point at or beyond c's closing last, and no index entry lives in c (c08_unlink_only_after_purge_durable); after EVERY flush + "
+             "workerIdle (worker alive; also after earlier failed syncs) nothing is left to unlink, nothing is postponed and the directory "
+             "holds exactly the live chunks (c08_flushed_idle_gone_always; a removal is postponed only while the last sync failed: "
+             "c08_postponed_only_after_failed_sync). Worker level (Props/C08): unlink only after a good sync, list order, popObsolete drops a prefix. "
+             "Not a theorem (false in the model, recorded finding): a chunk closed after the purge that covers it stays until the next "
+             "purge call. Trace oracle per unlink event on the "
              "implementation under injected faults + correspondence.",
              technique="Lean 4 invariant proofs (ghost store of dropped chunks, per-chunk purge marker <= acknowledged position) + trace oracle under fault injection + correspondence",
              ref="8 C08"),
@@ -120,11 +121,11 @@ CLAIMS = {
              "(probe), also when the store is dropped by a panic unwinding; reopen shows the acknowledged state and the new "
              "instance purges and flushes. System level (Props/C14Busy): a drop issued while the worker still has queued writes, syncs and "
              "unlinks equals `workerIdle` then drop (c14_busy_drop_eq_idle_drop); for every legal history ending with nothing pending on "
-             "the caller side and no removal postponed by a failed sync, drop + (any steps without open) + open with ANY configuration "
+             "the caller side and either a write still to be synced by the worker or no failed sync outstanding, drop + (any steps without open) + open with ANY configuration "
              "succeeds, touches no file, shows the same state, index and chunk table, re-establishes all invariants, and every further "
              "history behaves like the reference log (c14_busy_drop_then_open, c14_after_busy_drop_nothing_changes, "
-             "c14_busy_history_after_restart); c14_busy_postponed_needed shows the hypothesis is needed for the chunk table (state and "
-             "index are still equal).",
+             "c14_busy_history_after_restart); c14_busy_failed_sync_needed shows the hypothesis is needed for the chunk table when the worker is already idle "
+             "after a failed sync (state and index are still equal).",
              technique="Lean 4 termination + invariant proof for drop + gated-worker scenarios with a lock probe",
              ref="8 C14"),
  "C07": dict(text="Proved (c07_reads_with_truncate): for every configuration incl. cache limits 0, every history of legal calls "
